@@ -210,4 +210,65 @@ theorem argmin_spec (dis : List (List Rat)) (bf : Rat) (s : St) (n : Nat)
     have := h4 (a, b) ((mem_cells n a b).mpr ⟨ha, hb'⟩) ho
     simpa [h3] using this
 
+/-! ## masking a row and a column -/
+def cross (m : List (List Bool)) (k : Nat) (r : List Bool) : List (List Bool) :=
+  (m.set k r).map (fun row => row.set k true)
+
+def Square (n : Nat) (m : List (List Bool)) : Prop := m.length = n ∧ ∀ r ∈ m, r.length = n
+
+theorem cross_square {n : Nat} {m : List (List Bool)} {r : List Bool} (k : Nat)
+    (hm : Square n m) (hr : r.length = n) : Square n (cross m k r) := by
+  refine ⟨by simp [cross, hm.1], ?_⟩
+  intro r' hr'
+  simp only [cross, List.mem_map] at hr'
+  obtain ⟨row, hrow, rfl⟩ := hr'
+  rw [List.length_set]
+  rcases List.mem_or_eq_of_mem_set hrow with h | h
+  · exact hm.2 row h
+  · rw [h]; exact hr
+
+theorem cross_get {n : Nat} {m : List (List Bool)} {r : List Bool} {k a b : Nat}
+    (hm : Square n m) (hr : r.length = n) (hk : k < n) (ha : a < n) (hb : b < n) :
+    ((cross m k r).getD a []).getD b true =
+      if b = k then true else if a = k then r.getD b true else (m.getD a []).getD b true := by
+  have hlen : (m.set k r).length = n := by simp [hm.1]
+  have hrow : ((m.set k r).getD a []).length = n := by
+    have hmem := getD_mem (m.set k r) a [] (by omega)
+    rcases List.mem_or_eq_of_mem_set hmem with h | h
+    · exact hm.2 _ h
+    · rw [h]; exact hr
+  unfold cross
+  rw [getD_map (fun row : List Bool => row.set k true) (m.set k r) a [] [] (by omega), getD_set]
+  by_cases hbk : b = k
+  · subst hbk
+    rw [if_pos ⟨rfl, by omega⟩, if_pos rfl]
+  · have : ¬ (k = b ∧ b < ((m.set k r).getD a []).length) := fun h => hbk h.1.symm
+    rw [if_neg this, if_neg hbk, getD_set]
+    by_cases hak : a = k
+    · subst hak
+      rw [if_pos ⟨rfl, by have := hm.1; omega⟩, if_pos rfl]
+    · have : ¬ (k = a ∧ a < m.length) := fun h => hak h.1.symm
+      rw [if_neg this, if_neg hak]
+
+/-! ## one step, with the chosen cell as a parameter -/
+def satFlag (limit : Option Nat) (excl : Bool) (f i : Nat) : Bool :=
+  match limit with
+  | none => false
+  | some k => decide (f ≥ k) && (!excl || i != 0)
+
+theorem satFlag_iff (limit : Option Nat) (excl : Bool) (f i : Nat) :
+    satFlag limit excl f i = true ↔ ∃ k, limit = some k ∧ k ≤ f ∧ (excl = false ∨ i ≠ 0) := by
+  cases limit with
+  | none => simp [satFlag]
+  | some k => cases excl <;> simp [satFlag]
+
+def stepAt (dis : List (List Rat)) (limit : Option Nat) (excl : Bool) (n : Nat) (s : St) (i j : Nat) : St :=
+  let furc := s.furc.set i (s.furc.getD i 0 + 1)
+  let mask1 := if satFlag limit excl (furc.getD i 0) i then cross s.mask i (List.replicate n true) else s.mask
+  let conn := s.conn.set j true
+  ⟨s.pid.set j (i : Int), s.acc.set j (s.acc.getD i 0 + (dis.getD i []).getD j 0), furc, conn, cross mask1 j conn⟩
+
+theorem step_eq (dis : List (List Rat)) (bf : Rat) (limit : Option Nat) (excl : Bool) (n : Nat) (s : St) :
+    step dis bf limit excl n s = stepAt dis limit excl n s (argmin dis bf s n).1 (argmin dis bf s n).2 := rfl
+
 end Mst
